@@ -237,6 +237,69 @@ func checkLookupBeforeCreate(c *Ctx) {
 					}
 				}
 			}
+			if strings.HasPrefix(m, "EditComment") {
+				// an edit is created iff the text that would be stored differs from the text held: the
+				// comparison is between the very value handed to the call and the Message of the comment edited
+				okCmp, whyCmp := false, "the edit is not conditional on a comparison of the stored message with the text it would store"
+				args := cl.Args()
+				if len(args) >= 4 {
+					msg, target := args[3], args[2]
+					for _, cc := range controlConds(cl.Block(), nil) {
+						bo, isBo := cc.If.Cond.(*ssa.BinOp)
+						if !isBo || !isStringType(bo.X.Type()) {
+							continue
+						}
+						op := bo.Op
+						if cc.Edge == 1 {
+							op = negateOp(op)
+						}
+						if op != token.NEQ {
+							continue
+						}
+						var held ssa.Value
+						switch {
+						case bo.X == msg:
+							held = bo.Y
+						case bo.Y == msg:
+							held = bo.X
+						default:
+							if hasField(bo.X, "Message") || hasField(bo.Y, "Message") {
+								whyCmp = "the stored message is compared at " + w.InstrPos(bo) + " with another text than the one the edit stores (e.g. the raw tracker text instead of the cleaned one): whenever cleaning changes the text, every later import adds another edit"
+							}
+							continue
+						}
+						if !hasField(held, "Message") {
+							continue
+						}
+						// same comment: target id is CombinedId() of the comment whose Message is compared
+						cmtOf := func(v ssa.Value) ssa.Value {
+							if base, f, ok := loadOfField(v); ok && f == "Message" {
+								return base
+							}
+							return nil
+						}
+						hc := cmtOf(held)
+						same := false
+						if tc, isCall := target.(*ssa.Call); isCall && hc != nil {
+							if tn, _ := callName(tc.Common()); strings.HasSuffix(tn, "Comment.CombinedId") && len(tc.Common().Args) == 1 {
+								recv := tc.Common().Args[0]
+								if recv == hc {
+									same = true
+								}
+								if ld, isLd := recv.(*ssa.UnOp); isLd && ld.X == hc {
+									same = true
+								}
+							}
+						}
+						if same {
+							okCmp = true
+						} else {
+							whyCmp = "the comment edited is not the comment whose message was compared"
+						}
+					}
+				}
+				c.Check(okCmp, "R16.2", key+":edit-iff-differs", w.InstrPos(cl.Instr), "an edit is created only when the text it stores differs from the message held by the comment it edits", whyCmp)
+			}
 			c.Check(guarded, "R16.2", key+":lookup-first", w.InstrPos(cl.Instr), why, "the operation/entity is created without consulting the look-up by tracker id: importing the same tracker state again creates it again")
 			// metadata tag
 			if strings.HasPrefix(m, "EditComment") && !strings.Contains(key, "DescriptionChanged") {
